@@ -4,7 +4,8 @@
     Strength: partial.  Proved for the model: the report rules (for every local state, every
     table of versions advertised by Drummer, both values of the announce flag) and the
     request handling (for every NodeHost behaviour: the NodeHost is an arbitrary record of
-    functions [nh], for every sequence of deliveries/executions and every batch).
+    functions [nh], for every sequence of deliveries/executions and every batch; the queue also at the level of Go slices
+    and backing arrays: a batch handed out is never written to by a later delivery, [C18_once_no_aliasing]).
     Not modelled (exercised by the harness only, which is testing): dragonboat itself, gRPC,
     goroutine scheduling below the granularity of one request ([C18_commute] covers every
     interleaving of whole requests; a call for shard s touching only the component s of the
@@ -74,6 +75,18 @@ Theorem C18_once : forall evs a a' bs,
   run_evs a evs = (a', bs) -> concat bs ++ queue a' = queue a ++ received evs.
 Proof. exact run_evs_conservation. Qed.
 Print Assumptions C18_once.
+
+(* ... also at the level of the Go slices the queue is made of (append writes in place when the capacity allows, getRequests
+   hands out the queue's slice itself and installs a new empty one; [slack]: whatever the allocator adds to a new capacity):
+   after ANY history of deliveries and executions, every batch handed to the workers earlier - read through the FINAL heap -
+   is exactly the batch of [run_evs], and the queue holds exactly what [run_evs] says.  In particular a delivery made by the
+   reporter while a batch is still being worked on cannot change that batch. *)
+Theorem C18_once_no_aliasing : forall slack evs a' bs ha' sls,
+  run_evs (mkAgent []) evs = (a', bs) ->
+  h_run h_take slack h_init evs = (ha', sls) ->
+  map (view (ha_heap ha')) sls = bs /\ view (ha_heap ha') (ha_queue ha') = queue a'.
+Proof. exact h_run_refines. Qed.
+Print Assumptions C18_once_no_aliasing.
 
 (* within one execution: one worker per shard id, and the workers' inputs are a partition of the batch *)
 Theorem C18_once_partition : forall b,
@@ -185,6 +198,14 @@ Theorem C18_effect_restore : forall hi rq,
   else DIgnore.
 Proof. exact effect_restore. Qed.
 Print Assumptions C18_effect_restore.
+
+(* join and restore requests carry the shard's CURRENT member list (Drummer composes every CREATE request alike); the agent's
+   decision does not depend on it - nor on Change.Members: the replica is started from its own bootstrap record *)
+Theorem C18_effect_join_restore_lists_irrelevant : forall hi s m c i j r app ids addrs cfg m' ids' addrs',
+  j = true \/ r = true ->
+  decide hi (mkReq TCreate s m c i j r app ids addrs cfg) = decide hi (mkReq TCreate s m' c i j r app ids' addrs' cfg).
+Proof. exact create_lists_irrelevant. Qed.
+Print Assumptions C18_effect_join_restore_lists_irrelevant.
 
 Theorem C18_effect_join_restore : forall hi rq,
   q_type rq = TCreate -> q_join rq = true -> q_restore rq = true -> decide hi rq = DPanic.
@@ -320,4 +341,34 @@ Example ex_once :
   let r2 := ex_req TKill 2 [1] 0 0 false false [] [] in
   let r3 := ex_req TKill 3 [1] 0 0 false false [] [] in
   snd (run_evs (mkAgent []) [Recv [r1]; Recv [r2]; Exec; Recv [r3]; Exec; Exec]) = [[r1; r2]; [r3]; []].
+Proof. vm_compute. reflexivity. Qed.
+
+(* a delivery while a batch is being worked on (Exec = the batch is handed out; the Recv after it arrives while the workers
+   still read it): the slice handed out keeps its content ... *)
+Example ex_overlap_fresh :
+  let r1 := ex_req TAdd 1 [3] 1 0 false false [] [102] in
+  let r2 := ex_req TKill 1 [1] 0 0 false false [] [] in
+  let r3 := ex_req TCreate 2 [] 0 5 false false [5] [100] in
+  let r4 := ex_req TCreate 3 [] 0 5 false false [5] [100] in
+  let '(ha, sls) := h_run h_take (fun _ => 0%nat) h_init [Recv [r1; r2]; Exec; Recv [r3; r4]] in
+  map (view (ha_heap ha)) sls = [[r1; r2]] /\ view (ha_heap ha) (ha_queue ha) = [r3; r4].
+Proof. vm_compute. split; reflexivity. Qed.
+
+(* ... whereas with a queue that recycles its buffer (queue = queue[:0]) the same history overwrites the batch in progress:
+   the kill r2, received first and not yet executed, is gone.  [C18_once_no_aliasing] does not hold for [h_take_reuse]. *)
+Example ex_overlap_reuse :
+  let r1 := ex_req TAdd 1 [3] 1 0 false false [] [102] in
+  let r2 := ex_req TKill 1 [1] 0 0 false false [] [] in
+  let r3 := ex_req TCreate 2 [] 0 5 false false [5] [100] in
+  let r4 := ex_req TCreate 3 [] 0 5 false false [5] [100] in
+  let '(ha, sls) := h_run h_take_reuse (fun _ => 0%nat) h_init [Recv [r1; r2]; Exec; Recv [r3; r4]] in
+  map (view (ha_heap ha)) sls = [[r3; r4]].
+Proof. vm_compute. reflexivity. Qed.
+
+(* a restore request with the member list Drummer knows now (a member was added since the launch) is decided like one
+   without: start from the bootstrap record; on the reference NodeHost the replica launched alone runs again *)
+Example ex_restore_current_members :
+  let h := [(1, fst (ref_stop (fst (ref_start sh_empty (mkStart Regular [(1, 100)] false 1 1 ex_cfg true true))) 1 1))] in
+  exec_calls h [mkReq TCreate 1 [1; 2] 0 1 false true 0 [1; 2] [100; 101] ex_cfg] =
+  [(1, [EStart (mkStart Regular [] false 1 1 ex_cfg true true) SOk], Done)].
 Proof. vm_compute. reflexivity. Qed.
